@@ -257,6 +257,15 @@ theorem polyhedron_feature_spec (p : Poly K) (dir : V3 K) (f : Feature3 K) :
         exact ⟨id, h1, h2, hull3_of_getElem sq _ id _ (by simpa using h2)⟩
     · exact absurd h (by simp)
 
+/-- non-vacuity of the hypothesis `polySupportFeature p dir = some f`: one triangular face, direction `+z` -/
+private def exampleTable : Poly ℚ :=
+  { pts := #[⟨0, 0, 1⟩, ⟨1, 0, 1⟩, ⟨0, 1, 1⟩, ⟨0, 0, 0⟩], vertices := #[⟨0, 1⟩, ⟨1, 1⟩, ⟨2, 1⟩, ⟨3, 0⟩],
+    faces := #[{ first := 0, num := 3, normal := ⟨0, 0, 1⟩ }],
+    edges := #[⟨0, 1, 0, 0, ⟨1, 0, 0⟩, false⟩, ⟨1, 2, 0, 0, ⟨-1, 1, 0⟩, false⟩, ⟨2, 0, 0, 0, ⟨0, -1, 0⟩, false⟩],
+    facesAdjToVertex := #[0, 0, 0], edgesAdjToVertex := #[0, 1, 2], edgesAdjToFace := #[0, 1, 2], verticesAdjToFace := #[0, 1, 2] }
+example : ∃ f, @polySupportFeature ℚ (fieldNum ℚ id) exampleTable ⟨0, 0, 1⟩ = some f ∧ f.vids = [0, 1, 2] ∧ f.fid = 0 :=
+  ⟨_, rfl, rfl, rfl⟩
+
 /-- the geometric invariant of a well-formed convex polyhedron (`ConvexPolyhedron::check_geometry` asserts it with slack
 `DEFAULT_EPSILON`): every vertex listed for a face lies on a supporting plane orthogonal to the face normal, i.e. no point
 of the solid is further along the normal. -/
